@@ -127,6 +127,116 @@ impl VfStr {
     pub fn to_string(&self) -> (r: String) { unimplemented!() }
 }
 
+// ---- entropy source (U9: contracts proved by the Kani harnesses u9_*) ------------------------------
+#[verifier::external_body]
+pub struct GenerationSource { inner: usize }
+impl GenerationSource {
+    #[verifier::external_body]
+    pub fn choose_index(&mut self, max: usize) -> (r: usize)
+        ensures max > 0 ==> r < max, max == 0 ==> r == 0
+    { unimplemented!() }
+    #[verifier::external_body]
+    pub fn gen_range(&mut self, min: usize, max: usize) -> (r: usize)
+        ensures min < max ==> min <= r < max, min >= max ==> r == min
+    { unimplemented!() }
+    #[verifier::external_body]
+    pub fn gen_bool(&mut self) -> (r: bool) { unimplemented!() }
+    #[verifier::external_body]
+    pub fn gen_u8(&mut self) -> (r: u8) { unimplemented!() }
+    #[verifier::external_body]
+    pub fn gen_u16(&mut self) -> (r: u16) { unimplemented!() }
+    #[verifier::external_body]
+    pub fn gen_u32(&mut self) -> (r: u32) { unimplemented!() }
+    #[verifier::external_body]
+    pub fn gen_i32(&mut self) -> (r: i32) { unimplemented!() }
+    #[verifier::external_body]
+    pub fn gen_f64(&mut self) -> (r: f64) { unimplemented!() }
+}
+
+// ---- text formatting (R6): opaque text values with the decimal round-trip assumption -----------------
+#[verifier::external_body]
+pub struct VfText { inner: usize }
+impl VfText {
+    pub uninterp spec fn bytes(&self) -> Seq<u8>;
+    #[verifier::external_body]
+    pub fn as_bytes(&self) -> (r: &[u8])
+        ensures r@ == self.bytes()
+    { unimplemented!() }
+    #[verifier::external_body]
+    pub fn into_bytes(self) -> (r: Vec<u8>)
+        ensures r@ == self.bytes()
+    { unimplemented!() }
+}
+/// format!("{}\n", n) for n: usize -- assumed: non-empty, and from_utf8(..).trim().parse::<usize>() gives n back
+#[verifier::external_body]
+pub fn vf_fmt_usize_nl(n: usize) -> (r: VfText)
+    ensures vf_parse_index(r.bytes()) == Some(n), r.bytes().len() >= 2
+{ unimplemented!() }
+/// format!("{}\n", x) for x: f64
+#[verifier::external_body]
+pub fn vf_fmt_f64_nl(x: f64) -> (r: VfText)
+    ensures r.bytes().len() >= 2
+{ unimplemented!() }
+/// format!("pid_{}\n", n)
+#[verifier::external_body]
+pub fn vf_fmt_pid_nl(n: u32) -> (r: VfText)
+    ensures r.bytes().len() >= 6
+{ unimplemented!() }
+
+#[verifier::external_body]
+pub fn vf_f64_to_be_bytes(x: f64) -> (r: [u8; 8]) { unimplemented!() }
+#[verifier::external_body]
+pub fn vf_u32_to_le_bytes(x: u32) -> (r: [u8; 4])
+    ensures vstd::bytes::spec_u32_from_le_bytes(seq![r@[0], r@[1], r@[2], r@[3]]) == x
+{ unimplemented!() }
+#[verifier::external_body]
+pub fn vf_u16_to_le_bytes(x: u16) -> (r: [u8; 2]) { unimplemented!() }
+#[verifier::external_body]
+pub fn vf_sat_add_u8(x: u8, y: u8) -> (r: u8)
+    ensures r as int == if x + y > 255 { 255int } else { x + y }
+{ unimplemented!() }
+#[verifier::external_body]
+pub fn vf_sat_add_u16(x: u16, y: u16) -> (r: u16)
+    ensures r as int == if x + y > 65535 { 65535int } else { x + y }
+{ unimplemented!() }
+#[verifier::external_body]
+pub fn vf_min_usize(x: usize, y: usize) -> (r: usize)
+    ensures r == if x <= y { x } else { y }
+{ unimplemented!() }
+#[verifier::external_body]
+pub fn vf_unreachable()
+    requires false
+{ unimplemented!() }
+
+// ---- memo key enumeration: HashMap iteration order is arbitrary (C07) ------------------------------
+/// `m.keys().copied().collect::<Vec<_>>()`: SOME enumeration of the key set, each key once
+#[verifier::external_body]
+pub fn vf_keys(m: &HashMap<usize, StackObjectRef>) -> (r: Vec<usize>)
+    ensures
+        r@.no_duplicates(),
+        r@.len() == m@.len(),
+        forall|k: usize| r@.contains(k) <==> m@.dom().contains(k),
+{ unimplemented!() }
+/// `m.keys().filter(|&&k| k < bound).copied().collect::<Vec<_>>()`
+#[verifier::external_body]
+pub fn vf_keys_below(m: &HashMap<usize, StackObjectRef>, bound: usize) -> (r: Vec<usize>)
+    ensures
+        r@.no_duplicates(),
+        forall|k: usize| r@.contains(k) <==> (m@.dom().contains(k) && k < bound),
+{ unimplemented!() }
+pub open spec fn sorted_asc(s: Seq<usize>) -> bool {
+    forall|i: int, j: int| 0 <= i < j < s.len() ==> s[i] < s[j]
+}
+/// `v.sort_unstable()` on a duplicate-free vector: ascending permutation
+#[verifier::external_body]
+pub fn vf_sort_unstable(v: &mut Vec<usize>)
+    requires old(v)@.no_duplicates()
+    ensures
+        sorted_asc(final(v)@),
+        final(v)@.len() == old(v)@.len(),
+        forall|k: usize| final(v)@.contains(k) <==> old(v)@.contains(k),
+{ unimplemented!() }
+
 pub open spec fn ver_num(v: Version) -> int {
     match v { Version::V0 => 0, Version::V1 => 1, Version::V2 => 2, Version::V3 => 3, Version::V4 => 4, Version::V5 => 5 }
 }
